@@ -50,6 +50,8 @@ def bad_sql(cause: str, q: int) -> str:
         "usedb": "use database nodb",
         "dropdb": "drop database nodb",
         "dupdb": "create database d1",
+        "createinothersch": "create table d2.s1.x (a int)",
+        "dropothersch": "drop schema d2.s1",
         "undefvar": "select $nope",
     }[cause]
 
@@ -92,8 +94,8 @@ class C07(Prop):
         c = {"Devs": set(), "Depth": 12, "MaxFails": 99, "SampleOneIn": 1}
         out = [dict(name="mc_ideal", consts=c, invariants=["StepInv"], constraint="Bound", view="ViewSt")]
         for d in ("C07.drop_database_engine_exception", "C07.context_guard_first_table_only", "C07.cte_name_needs_context",
-                  "C07.merge_qualified_source_parse_error"):
-            out.append(dict(name="mc_" + d.split(".")[1], consts=dict(c, Devs={d}, Depth=3), invariants=["StepInv"],
+                  "C07.merge_qualified_source_parse_error", "C07.other_database_write_aborts_transaction"):
+            out.append(dict(name="mc_" + d.split(".")[1], consts=dict(c, Devs={d}, Depth=5 if "aborts" in d else 3), invariants=["StepInv"],
                             constraint="Bound", view="ViewSt", devs=[d]))
         return out
 
@@ -113,7 +115,8 @@ class C07(Prop):
     def drive(self, ops, rng):
         import fakesnow
 
-        fs = fakesnow.instance.FakeSnow()
+        fs = fakesnow.instance.FakeSnow(nop_regexes=["^call vt_"])
+        fs.connect("D2", "OTHER")          # a second database that has no schema S1
         admin = fs.connect("D1", "S1")
         ac = admin.cursor()
         ac.execute("create table t (a int, b varchar(7)) comment = 'c0'")
@@ -168,7 +171,7 @@ class C07(Prop):
                     cur = conn.cursor()
                 elif k == "good":
                     sql = {"ins": "insert into t (a) values (1)", "sel": "select a from t", "begin": "begin", "commit": "commit",
-                           "rollback": "rollback", "setvar": "set v = 7", "unsetvar": "unset v", "describe": ""}[op["w"]]
+                           "rollback": "rollback", "setvar": "set v = 7", "unsetvar": "unset v", "describe": "", "nopcall": "call vt_proc()"}[op["w"]]
                     if op["w"] == "describe":
                         cur.describe("select a from t")
                     else:
